@@ -117,20 +117,21 @@ type action =
 | AReconf of kind * name
 | ATerm of kind * name
 
-val target_actions : (name * rcomp) list -> (name * lcomp) -> action list
+val gate_for : kind -> gates -> name -> coq_N option
 
-val unit_actions :
-  (name * rcomp) list -> gates -> (name * lcomp) -> action list
+val comp_actions :
+  kind -> (name * rcomp) list -> gates -> (name * lcomp) -> action list
 
-val started_unit : gates -> (name * lcomp) -> (name * rcomp) list
-
-val started_target : (name * lcomp) -> name * rcomp
+val started : kind -> gates -> (name * lcomp) -> (name * rcomp) list
 
 val gone : kind -> name list -> (name * rcomp) list -> action list
 
 val spawned : kind -> action list -> name list
 
 val track_clash : action list -> bool
+
+val kind_actions :
+  kind -> (name * rcomp) list -> gates -> (name * lcomp) list -> action list
 
 val spawn : mgr -> lconfig -> action list * mgr
 
